@@ -20,6 +20,10 @@ from fractions import Fraction
 from decimal import Decimal
 
 HOME = os.environ.get("VERIF_HOME") or os.path.dirname(os.path.dirname(os.path.abspath(__file__)))
+# where evidence and replay files go: /verif itself for the registered commands; a scratch directory when the tools run a
+# check against a scratch copy of the repository (tools/seedtest.sh, tools/verify_seed.sh), so that /verif/evidence only ever
+# describes runs against /repo
+OUT = os.environ.get("VERIF_OUT") or HOME
 REPO = os.path.realpath(os.environ.get("VERIF_REPO", "/repo"))
 NPROC = int(os.environ.get("VERIF_NPROC", "16"))
 MAX_REPLAYS_PER_SITE = 3
@@ -264,7 +268,7 @@ def finish(mod, tier, seed, tot, crashes, wall, extra_cov=None):
     prop = mod.PROPERTY
     level = mod.LEVEL
     findings = load_findings()
-    rdir = os.path.join(HOME, "replays", prop)
+    rdir = os.path.join(OUT, "replays", prop)
     os.makedirs(rdir, exist_ok=True)
 
     # crashes inside pint code on cases the unchanged tree handles are violations; crashes in
@@ -341,8 +345,8 @@ def finish(mod, tier, seed, tot, crashes, wall, extra_cov=None):
         "wall_s": round(wall, 3),
         "violations": nviol,
     }
-    os.makedirs(os.path.join(HOME, "evidence"), exist_ok=True)
-    with open(os.path.join(HOME, "evidence", f"{prop}.json"), "w") as fh:
+    os.makedirs(os.path.join(OUT, "evidence"), exist_ok=True)
+    with open(os.path.join(OUT, "evidence", f"{prop}.json"), "w") as fh:
         json.dump(ev, fh, indent=1, default=repr)
 
     for ln in lines:
